@@ -35,7 +35,7 @@ ASSUMPTIONS = [
     "Fractional powers: only fixed gates, reference = principal branch with Log(-1) = +i pi (scipy fractional_matrix_power convention).",
     "Instances needing more than MAXW wires in total are rejected (harness size bound).",
 ]
-BUDGET = {"quick": {"examples": 1000}, "thorough": {"examples": 160000, "shards": 16}}
+BUDGET = {"quick": {"examples": 800}, "thorough": {"examples": 160000, "shards": 16}}
 MAXW = {"quick": 9, "thorough": 10}
 TOL = 1e-8
 SHRINK_LISTS = ()
